@@ -27,7 +27,7 @@ func endEmitters(p *Prog) (emitters []*ssa.Function, isEmitter map[*ssa.Function
 	opReportEarly := p.MustFunc("(*operation).reportError")
 	isEndEncode = func(in ssa.Instruction) bool {
 		ci, ok := in.(ssa.CallInstruction)
-		return ok && ci.Common().IsInvoke() && ci.Common().Method.Name() == "encodeEnd"
+		return ok && ci.Common().IsInvoke() && N(ci.Common().Method) == "encodeEnd"
 	}
 	isEmitter = map[*ssa.Function]bool{}
 	for _, fn := range p.Funcs {
@@ -70,7 +70,7 @@ func runC03(c *Ctx) {
 	for _, fn := range p.Funcs {
 		for _, call := range Calls(fn) {
 			cc := call.Common()
-			if !cc.IsInvoke() || cc.Method.Name() != "addProtocolResponseHeaders" {
+			if !cc.IsInvoke() || N(cc.Method) != "addProtocolResponseHeaders" {
 				continue
 			}
 			c.CountSite()
@@ -84,11 +84,11 @@ func runC03(c *Ctx) {
 				}
 				lc := l.Call.Common()
 				var recv ssa.Value
-				if lc.IsInvoke() && lc.Method.Name() == "Name" {
+				if lc.IsInvoke() && N(lc.Method) == "Name" {
 					recv = lc.Value
 				}
 				f := LoadedField(recv)
-				if recv == nil || f == nil || f.Name() != "codec" || !PathOfHasSide(recv, "client") {
+				if recv == nil || f == nil || N(f) != "codec" || !PathOfHasSide(recv, "client") {
 					good = false
 				}
 			}
@@ -98,7 +98,7 @@ func runC03(c *Ctx) {
 		// static delegation between client handlers must pass the parameter through
 		for _, call := range Calls(fn) {
 			sc := call.Common().StaticCallee()
-			if sc == nil || sc.Name() != "addProtocolResponseHeaders" || sc.Signature.Recv() == nil {
+			if sc == nil || N(sc) != "addProtocolResponseHeaders" || sc.Signature.Recv() == nil {
 				continue
 			}
 			_, isParam := call.Common().Args[1].(*ssa.Parameter)
@@ -112,7 +112,7 @@ func runC03(c *Ctx) {
 	for _, fn := range p.Funcs {
 		for _, call := range Calls(fn) {
 			cc := call.Common()
-			if cc.IsInvoke() && cc.Method.Name() == "encodeEnd" {
+			if cc.IsInvoke() && N(cc.Method) == "encodeEnd" {
 				ok := fn == opReport || fn == reportEnd || fn == flushHeaders
 				if !ok && fn.Signature.Recv() != nil && isPtrTo(fn.Signature.Recv().Type(), RootPath, "responseWriter") {
 					// a helper of the response writer reached only through reportEnd / flushHeaders
@@ -126,7 +126,7 @@ func runC03(c *Ctx) {
 				c.Check(ok, "C03.2", FuncName(fn), "who-calls:encodeEnd", call.Pos(),
 					"the end encoder is invoked only by the response writer's end path (reportEnd / flushHeaders, or a helper only they call) and the pre-handler reporter", "the client protocol's end encoder is invoked outside responseWriter's reportEnd / flushHeaders end path and operation.reportError: a second terminal disposition can be emitted")
 			}
-			if cc.IsInvoke() && cc.Method.Name() == "WriteHeader" && isNamed(cc.Value.Type(), "net/http", "ResponseWriter") {
+			if cc.IsInvoke() && N(cc.Method) == "WriteHeader" && isNamed(cc.Value.Type(), "net/http", "ResponseWriter") {
 				allowed := map[string]bool{"(*responseWriter).flushHeaders": true, "(*operation).reportError": true, "(*httpError).Encode": true, "httpWriteError": true}
 				c.Check(allowed[FuncName(fn)], "C03.2", FuncName(fn), "who-calls:WriteHeader", call.Pos(),
 					"the underlying writer's WriteHeader is called from a designated site", "the underlying ResponseWriter.WriteHeader is called outside the designated sites: more than one response head can be written")
@@ -188,7 +188,7 @@ func runC03(c *Ctx) {
 			return
 		}
 		cc := ci.Common()
-		if cc.IsInvoke() && cc.Method.Name() == "WriteHeader" {
+		if cc.IsInvoke() && N(cc.Method) == "WriteHeader" {
 			c.Check(fieldFalse(in.Block(), headersFlushedF), "C03.2", FuncName(flushHeaders), "guard:headersFlushed", in.Pos(),
 				"the response head is written only on the edge where headersFlushed is false", "flushHeaders can write the response head twice (headersFlushed not tested)")
 			setsFlag := func(x ssa.Instruction) bool {
@@ -252,7 +252,7 @@ func runC03(c *Ctx) {
 		// Write forwards data only when err == nil
 		ForEachInstr(rwWrite, func(in ssa.Instruction) {
 			ci, ok := in.(ssa.CallInstruction)
-			if !ok || !ci.Common().IsInvoke() || ci.Common().Method.Name() != "Write" {
+			if !ok || !ci.Common().IsInvoke() || N(ci.Common().Method) != "Write" {
 				return
 			}
 			okGuard := false
@@ -272,7 +272,7 @@ func runC03(c *Ctx) {
 			return
 		}
 		cc := ci.Common()
-		if cc.IsInvoke() && (cc.Method.Name() == "WriteHeader" || cc.Method.Name() == "encodeEnd") {
+		if cc.IsInvoke() && (N(cc.Method) == "WriteHeader" || N(cc.Method) == "encodeEnd") {
 			okGuard := false
 			for _, f := range FactsAt(in.Block()) {
 				if ex, ok := f.Cond.(*ssa.Extract); ok && ex.Index == 1 && !f.Truth {
@@ -281,7 +281,7 @@ func runC03(c *Ctx) {
 					}
 				}
 			}
-			c.Check(okGuard, "C03.2", FuncName(opReport), "pre-handler-only:"+cc.Method.Name(), in.Pos(),
+			c.Check(okGuard, "C03.2", FuncName(opReport), "pre-handler-only:"+N(cc.Method), in.Pos(),
 				"the direct write of head/end happens only when the writer is not yet a responseWriter", "operation.reportError writes head/end directly although a responseWriter may exist: two dispositions")
 		}
 	})
@@ -385,7 +385,7 @@ func runC03more(c *Ctx) {
 		sinks := map[*types.Var]bool{}
 		for i := 0; i < st.NumFields(); i++ {
 			f := st.Field(i)
-			if f.Name() == "err" {
+			if N(f) == "err" {
 				errF = f
 			}
 			if isNamed(f.Type(), "io", "Writer") {
@@ -400,7 +400,7 @@ func runC03more(c *Ctx) {
 		forwarder := map[*ssa.Function]bool{}
 		isSinkWrite := func(call ssa.CallInstruction) bool {
 			cc := call.Common()
-			if cc.IsInvoke() && cc.Method.Name() == "Write" && sinks[LoadedField(cc.Value)] {
+			if cc.IsInvoke() && N(cc.Method) == "Write" && sinks[LoadedField(cc.Value)] {
 				return true
 			}
 			if IsCallTo(call, "(*bytes.Buffer).WriteTo") && sinks[LoadedField(cc.Args[1])] {
@@ -415,7 +415,7 @@ func runC03more(c *Ctx) {
 		}
 		var methods []*ssa.Function
 		for i := 0; i < ms.Len(); i++ {
-			if m := p.MethodOf(types.NewPointer(n), ms.At(i).Obj().Name()); m != nil && m.Blocks != nil {
+			if m := p.MethodOf(types.NewPointer(n), N(ms.At(i).Obj())); m != nil && m.Blocks != nil {
 				methods = append(methods, m)
 			}
 		}
@@ -526,7 +526,7 @@ func runC03more(c *Ctx) {
 		}
 		m := p.MethodOf(t, "addProtocolResponseHeaders")
 		for _, fn := range SortedFuncs(p.Reach(m)) {
-			if !p.inScope(fn) || fn.Name() != "addProtocolResponseHeaders" {
+			if !p.inScope(fn) || N(fn) != "addProtocolResponseHeaders" {
 				continue
 			}
 			for _, hm := range HeaderMutations(fn) {
@@ -563,10 +563,10 @@ func runC03more(c *Ctx) {
 								}
 								name := ""
 								if f := LoadedFieldOrField(b.X); f != nil {
-									name = f.Name()
+									name = N(f)
 								}
 								if fv, isF := b.X.(*ssa.Field); isF {
-									name = FieldOfVal(fv).Name()
+									name = N(FieldOfVal(fv))
 								}
 								if name == "end" || name == "err" {
 									evidence = true
@@ -662,7 +662,7 @@ func runC03more(c *Ctx) {
 // isHasErrCond: v is (a phi / conjunction of) "end != nil && end.err != nil".
 func isHasErrCond(v ssa.Value) bool {
 	for _, l := range Origins(v) {
-		if l.Kind == "load" && l.Field != nil && l.Field.Name() == "err" && strings.Contains(l.Path, ".end.") {
+		if l.Kind == "load" && l.Field != nil && N(l.Field) == "err" && strings.Contains(l.Path, ".end.") {
 			return true
 		}
 	}
